@@ -9,6 +9,8 @@ CHECKS = {
          "InvRule; list entries one symbolic letter; go/ssa lowering; engine; z3"),
  "C09": ("DNSResult.DNSRewrites over sequences of 0..3 (thorough 0..4/5) rewrite rules with symbolic exception/important flags and payloads of six kinds, against the order-independent reference filter; result list untouched",
          "rules built field by field, re-parsed from text on replay; netip globals imported from the native process; engine; z3"),
+ "C06": ("NewMatchingResult+GetBasicResult (k<=2/3 request and s<=2 referrer rules) and GetDNSBasicRule (k<=3/4) over arbitrary symbolic rules against the order-free documented precedence; selected rule never outranked (C07); verdict unchanged by adding a rule with its badfilter twin at any positions (C08)",
+         "InvRule; MatchAll results are the harness lists (engine wiring outside); engine; z3"),
  "C16": ("unbounded in the fields the function reads (64-bit option word, 32-bit mask, exception flag fully symbolic under the parser's representation invariant); counterexamples replayed from rule text through the real parser",
          "InvRule on option words (validated natively on the repo's own rule corpus); go/ssa lowering; engine; z3"),
 }
